@@ -173,6 +173,7 @@ func GenStressCase(t *rapid.T) StressCase {
 	h := GenHistCase(t)
 	c := StressCase{World: h.World, Start: h.Start, ResizeMs: rapid.IntRange(1, 25).Draw(t, "resizems"), Jitter: int64(rapid.IntRange(1, 1<<30).Draw(t, "jitter")), Preload: rapid.IntRange(1, 5).Draw(t, "preload"),
 		HookMs: rapid.SampledFrom([]int{0, 0, 5, 20, 60}).Draw(t, "hookms")}
+	c.World.AliasRefs = rapid.SampledFrom([]int{0, 0, 1}).Draw(t, "aliasrefs") == 1
 	for i := range c.World.Actors {
 		if c.World.Actors[i].OutboxPer > 0 && rapid.SampledFrom([]int{0, 0, 0, 1}).Draw(t, "outboxloop") == 1 {
 			c.World.Actors[i].OutboxLoop = rapid.SampledFrom([]string{"self", "first"}).Draw(t, "loopkind")
